@@ -531,6 +531,63 @@ def eintr_cases(setup, op, tail, maxn=6, counts=(1, 2, 6)):
     return out
 
 
+FAIL_ERRS = ["ENOMEM", "EACCES", "EMFILE", "EINVAL", "EBADF", "ENOENT"]
+
+
+def _trace_tokens(setup, op):
+    ml = model_lines(setup + [op])
+    if len(ml) <= len(setup):
+        return []
+    return ml[len(setup)].split("=> ")[0].split()
+
+
+def fail_cases(setup, op, tail, second=True):
+    """scripted failures of the environment: every system call the model says `op` makes fails (the call is not made,
+    errno rotates over FAIL_ERRS; the opens also with EEXIST / ENOENT / EINTR, which the code treats specially), and —
+    `second` — every later system call of THAT run (the clean-up the failure path makes: close, munmap, shm_unlink,
+    sem_unlink, the retry of a loop) fails as well.  The op itself is compared with the model system call by system
+    call; `obs` and `tail` (recovery through the API) follow."""
+    w, rest = op.split(" ", 1)
+    toks = _trace_tokens(setup, op)
+    out, firsts = [], []
+    for k, tk in enumerate(toks):
+        errs = [FAIL_ERRS[k % len(FAIL_ERRS)], FAIL_ERRS[(k + 3) % len(FAIL_ERRS)]]
+        if tk.startswith("sem_open") or tk.startswith("shm_open"):
+            errs += ["EEXIST", "ENOENT", "EINTR"]
+        if tk.startswith("sem_wait"):
+            errs += ["EINTR"]
+        for e in dict.fromkeys(errs):
+            firsts.append((k, e))
+    for k, e in firsts:
+        out.append(setup + ["%s fail %d:%s %s" % (w, k, e, rest), "obs"] + tail)
+    if second:
+        for k, e in firsts[::2] if len(firsts) > 12 else firsts:
+            t2 = _trace_tokens(setup, "%s fail %d:%s %s" % (w, k, e, rest))
+            for j in range(k + 1, len(t2)):
+                e2 = FAIL_ERRS[(k + j) % len(FAIL_ERRS)]
+                # a creator whose shm_unlink on the failure path fails as well leaves a zero-size (or half-made) name behind:
+                # nothing the code could do; the case is tied system call by system call, without the recovery tail
+                keep = [] if t2[j].startswith("shm_unlink") else tail
+                out.append(setup + ["%s fail %d:%s,%d:%s %s" % (w, k, e, j, e2, rest), "obs"] + keep)
+    return out
+
+
+def sprinkle_failures(rng, ops, p=0.05):
+    """random histories: a few API calls get a scripted failure at a random system call (prefilter then drops what the
+    changed history makes illegal).  Not `free`: a clean-up that fails half-way (segment name left, lock name removed under
+    live handles) is a state the spec column cannot describe for arbitrary later ops; those failures are covered by the
+    directed `fail_cases` with their fixed recovery tails."""
+    out = []
+    for o in ops:
+        t = o.split()
+        if len(t) >= 3 and t[0].isdigit() and t[1] in ("new-sem", "new-shm", "acq", "rel", "lock", "unlock") and rng.random() < p:
+            out.append("%s fail %d:%s %s" % (t[0], rng.randrange(8 if t[1].startswith("new") else 1),
+                                             rng.choice(FAIL_ERRS + ["EEXIST", "EINTR"]), " ".join(t[1:])))
+        else:
+            out.append(o)
+    return out
+
+
 def schedules(la, lb):
     """all interleavings of la system calls of `a` with lb of `b`"""
     for pos in itertools.combinations(range(la + lb), la):
